@@ -795,6 +795,7 @@ def _short(o):
 class Judge:
     def __init__(self, rep, oracle):
         self.rep, self.oracle = rep, oracle
+        self.deferred = {}
         self.stats = {"histories": 0, "queries": 0, "hit_queries": 0, "reuse_detected": 0, "stale_steps_model": 0,
                       "stale_steps_exercised": 0, "not_exercised": 0, "unjudged": 0, "violating_answers": 0, "model_deviation_not_observed": 0}
 
@@ -837,6 +838,12 @@ class Judge:
                 key = {"table": table, "history": hclass}
                 self.stats["violating_answers"] += 1
                 job = h.job(theme, container, amp[0], amp[1])
+                if table == "unexplained":
+                    # not one of the deviations the faithful model knows: shrink the history first (after the replay)
+                    ck = json.dumps([h.ops[:k + 1], theme, container])
+                    if ck not in self.deferred:
+                        self.deferred[ck] = ({**job, "ops": h.ops[:k + 1]}, h.origin)
+                    continue
                 diff = {p: (real.get(p), fresh_real.get(p)) for p in sorted(set(real) | set(fresh_real))
                         if real.get(p) != fresh_real.get(p)}
                 rep.violation(key,
@@ -851,6 +858,73 @@ class Judge:
                 # not happen in this attempt, or the tree no longer has that discipline (both fine; informational)
                 self.stats["model_deviation_not_observed"] += 1
         return exercised
+
+
+def _violates(job, oracle, pool):
+    """(real answer, fresh answer) of the last op of a job if they differ, else None."""
+    k = len(job["ops"]) - 1
+    fj = {"ops": fresh_ops(job["ops"], k), "theme": job["theme"], "container": job["container"], "probes": job["probes"]}
+    oracle.resolve([fj])
+    fresh = oracle.get(fj)
+    real = pool.map(run_history, [job])[0][-1]["ans"]
+    return (real, fresh) if real != fresh else None
+
+
+def _removable(ops, i):
+    o = ops[i]
+    later = ops[i + 1:]
+    if o["op"] == "decorate":
+        return not any(x["op"] in ("call", "decorate") for x in later)
+    if o["op"] == "hold":
+        return not any(x["op"] in ("leheld", "drop", "hold") for x in later)
+    if o["op"] == "drop":
+        return not any(x["op"] == "hold" for x in later)
+    if o["op"] == "redefine":
+        # the first definition of U is needed by everything that builds a hint from the name
+        return o["n"] != "U"
+    return True
+
+
+def _shrink(job, oracle, pool, budget=40):
+    """greedy one-at-a-time removal of earlier operations while the last answer still differs from a fresh interpreter."""
+    ops = list(job["ops"])
+    i = 0
+    while i < len(ops) - 1 and budget > 0:
+        if _removable(ops, i):
+            cand = ops[:i] + ops[i + 1:]
+            budget -= 1
+            try:
+                bad = _violates({**job, "ops": cand}, oracle, pool)
+            except Exception:  # noqa
+                bad = None
+            if bad:
+                ops = cand
+                continue
+        i += 1
+    return ops
+
+
+def _report_deferred(rep, judge, oracle, pool, limit=24):
+    for n, (ck, (job, origin)) in enumerate(sorted(judge.deferred.items())):
+        if n >= limit:
+            rep.note(f"{len(judge.deferred) - limit} more unexplained violating histories not shrunk")
+            break
+        ops = _shrink(job, oracle, pool)
+        bad = _violates({**job, "ops": ops}, oracle, pool)
+        if not bad:
+            ops, bad = job["ops"], _violates(job, oracle, pool)
+        if not bad:
+            rep.note(f"a violating history did not reproduce when re-run: {[_short(o) for o in job['ops']]}")
+            continue
+        real, fresh = bad
+        diff = {p: (real.get(p), fresh.get(p)) for p in sorted(set(real) | set(fresh)) if real.get(p) != fresh.get(p)}
+        mini = {**job, "ops": ops}
+        rep.violation({"table": "unexplained (not a deviation of the faithful Door.tla model)",
+                       "history": "minimal ops: " + json.dumps([_short(o) for o in ops]),
+                       "theme": [job["theme"], job["container"]]},
+                      f"after the (shrunk) history below the last query answers {diff} (after history, in a fresh "
+                      f"interpreter)\n" + render(mini),
+                      {"job": mini, "step": len(ops) - 1, "real": real, "fresh_interpreter": fresh, "origin": origin})
 
 
 # ====================================================================== run
@@ -1030,6 +1104,8 @@ def _replay_all(rep, pool, hists, quick, rnd):
             if last["judged"]:
                 rep.nontrivial((op["op"], op.get("d", op.get("a", "")), op.get("b", ""), bool(last["hit"]), bool(last["stale"]),
                                 bool(last["swap"]), theme, cont))
+    if judge.deferred:
+        _report_deferred(rep, judge, oracle, pool)
     rep.note(f"replayed {len(items)} concretised histories in {time.time() - t0:.0f}s: {judge.stats}")
     for k, v in judge.stats.items():
         rep.cov[k] = v
